@@ -14,6 +14,7 @@ injected by a sys.settrace hook at the k-th line event inside xgcm's source.
 """
 
 import copy
+import json
 import os
 import sys
 import warnings
@@ -117,6 +118,8 @@ def build_world(ws):
     gs = ws["gspec"]
     w.gspec = gs
     w.ds = worlds.build_ds(gs)
+    if gs.get("ds_chunks"):
+        w.ds = w.ds.chunk({d: tuple(c) for d, c in gs["ds_chunks"].items() if d in w.ds.dims})
     sizes = dict(w.ds.sizes)
     w.arrays = []
     for a in ws["arrays"]:
@@ -129,6 +132,10 @@ def build_world(ws):
             da.encoding.update(a["encoding"])
         if a.get("self_coord"):
             da = da.assign_coords({da.dims[0]: (da.dims[0], np.asarray(da.values), {"axis": "Z"})})
+        if a.get("chunks"):
+            # lazy world: the caller's array is dask-backed; its blocks are views of one in-memory buffer, so a task
+            # that writes into the block it is handed modifies what the caller gave
+            da = da.chunk({d: tuple(c) for d, c in a["chunks"].items() if d in da.dims})
         w.arrays.append(da)
     w.nps = [np.asarray(n, dtype="float64") for n in ws.get("nps", [])]
     w.maps = []
@@ -432,8 +439,17 @@ def execute(spec, cnt=None):
     """spec = {"world": wspec, "ops": [op...]}; op may carry "fault":
        {"kind": "inject", "frac": f} | {"kind": "refused"|"user_raise"}.
     Returns (violation or None, outcomes)."""
+    import dask
+
+    with dask.config.set(scheduler="synchronous"):
+        return _execute(spec, cnt)
+
+
+def _execute(spec, cnt=None):
     cnt = cnt or Counters()
     ws = spec["world"]
+    if any(a.get("chunks") for a in ws["arrays"]):
+        cnt.inc("lazy_worlds")
     w = build_world(ws)
     pristine, pristine_ids = snap_world(w)
     cnt.inc("snapshots")
@@ -605,6 +621,12 @@ def gen_simple_world(rng):
                        "name": None if rng.random() < 0.6 else "theta",
                        "attrs": {"units": "kg m-3", "long_name": "density"} if rng.random() < 0.7 else {}})
         idx["td_c"] = len(arrays) - 1
+        # a second profile with the same name, dimensions and position but other values (another time step of the
+        # same field): a call must not answer with what it worked out for the first one
+        twin = copy.deepcopy(arrays[-1])
+        twin["data"] = dict(twin["data"], seed=rng.randrange(10**6))
+        arrays.append(twin)
+        idx["td_c2"] = len(arrays) - 1
         d = cdims(zpos="zo", t=False)
         arrays.append({"dims": d, "data": {"gen": "mono", "dim": "zo", "seed": rng.randrange(10**6), "positive": True},
                        "name": None if rng.random() < 0.5 else "theta_o"})
@@ -639,6 +661,10 @@ def gen_simple_world(rng):
     addmap("boundary_none_values", {a: None for a in axn})
     # partial per-axis default shifts, re-used for several Grids
     addmap("default_shifts", {"X": {"center": "left"}} if rng.random() < 0.5 else {a: {"center": "left"} for a in axn if a != "Z"})
+    # axis lists a caller keeps and passes again, and a `to` mapping naming the position the data already have
+    addmap("axis_all", list(axn))
+    addmap("axis_x", ["X"])
+    addmap("to_same", {a: "center" for a in axn})
     gkw = {"coords": {a: dict(axes[a]["pos"]) for a in axn}, "autoparse_metadata": False,
            "periodic": False, "boundary": {a: (rng.choice(nonper) if a == "Z" else rng.choice(bnd_words)) for a in axn},
            "fill_value": {a: float(rng.randint(0, 2)) for a in axn}, "metrics": {"$items": metrics}}
@@ -718,6 +744,9 @@ def gen_face_world(rng):
     addmap("coords", {a: dict(axes[a]["pos"]) for a in axes})
     addmap("fc", fc_items(fcj))
     addmap("periodic_list", ["X"])
+    addmap("axis_all", list(axes))
+    addmap("axis_x", ["X"])
+    addmap("to_same", {a: "center" for a in axes})
     gkw = {"coords": {a: dict(axes[a]["pos"]) for a in axes}, "autoparse_metadata": False,
            "periodic": False, "boundary": rng.choice([rng.choice(words), {a: rng.choice(words) for a in axes}]),
            "fill_value": float(rng.randint(0, 2)), "face_connections": fc_items(fcj),
@@ -779,14 +808,22 @@ def gen_op(rng, ws, info):
             return {"op": "method", "grid": g, "name": name, "pos": [{"$a": idx[src]}, "Z"], "kw": kw}
         if src == "c" and rng.random() < 0.4:
             kw["to"] = _maybe_shared(rng, info, rng.choice(["to_center_src", "to_partial"]), "left")
+        if ax == "X" and rng.random() < 0.2:
+            ax = {"$m": mi["axis_x"]}  # the axis as a list object the caller keeps
         return {"op": "method", "grid": g, "name": name, "pos": [{"$a": idx[src]}, ax], "kw": kw}
     if kind == "multi":
         name = rng.choice(["diff", "interp", "min", "max"])
         ax = list(axn)
         rng.shuffle(ax)
         kw = bkw({})
-        if rng.random() < 0.5:
+        r = rng.random()
+        if r < 0.45:
             kw["to"] = _maybe_shared(rng, info, "to_center_src", "left")
+        elif r < 0.6:
+            # (the position the data already have: refused, or answered trivially - either way nothing may change)
+            kw["to"] = {"$m": mi["to_same"]}
+        if rng.random() < 0.4:
+            ax = {"$m": mi["axis_all"]}
         return {"op": "method", "grid": g, "name": name, "pos": [{"$a": idx["c"]}, ax], "kw": kw}
     if kind == "cumsum":
         ax = rng.choice(axn)
@@ -878,7 +915,7 @@ def gen_op(rng, ws, info):
     if kind == "metricop":
         name = rng.choice(["derivative", "integrate", "average", "cumint"])
         if name in ("integrate", "average"):
-            ax = rng.choice([["X"], axn, "X"])
+            ax = rng.choice([["X"], axn, "X", {"$m": mi["axis_all"]}, {"$m": mi["axis_x"]}])
             return {"op": "method", "grid": g, "name": name, "pos": [{"$a": idx["c"]}, ax], "kw": {}}
         ax = rng.choice(axn)
         kw = bkw({})
@@ -918,10 +955,10 @@ def gen_op(rng, ws, info):
         method = rng.choice(["linear", "log", "conservative"])
         kw = {"method": method}
         if method == "conservative":
-            kw["target_data"] = {"$a": idx[rng.choice(["td_o", "td_c"])]}
+            kw["target_data"] = {"$a": idx[rng.choice(["td_o", "td_c", "td_c2"])]}
             target = {"$n": 1}
         else:
-            kw["target_data"] = {"$a": idx["td_c"]}
+            kw["target_data"] = {"$a": idx[rng.choice(["td_c", "td_c", "td_c2"])]}
             # ({"$n": 1} holds a level at 0: the edge of the domain of the logarithm)
             target = rng.choice([{"$n": 0}, {"$a": idx["lev"]}, {"$n": 1}])
             if rng.random() < 0.5:
@@ -951,6 +988,8 @@ def illpose(rng, call):
         c["pos"][1] = "Q"
     elif e == "axis_second_unknown":
         a = c["pos"][1]
+        if isinstance(a, dict):
+            a = ["X"]
         c["pos"][1] = (a if isinstance(a, list) else [a]) + ["Q"]
     elif e == "to_bogus":
         c["kw"]["to"] = "nowhere"
@@ -977,6 +1016,15 @@ def make_case(seed_i, tier):
     nops = rng.randint(2, maxops)
     ops = []
     base = [gen_op(rng, ws, info) for _ in range(rng.randint(1, nops))]
+    if "td_c2" in info["idx"]:
+        # the same call on the twin profile (same name, dims and position, other values) joins the base set
+        a, b = info["idx"]["td_c"], info["idx"]["td_c2"]
+        for call in list(base):
+            txt = json.dumps(call)
+            for x, y in ((a, b), (b, a)):
+                if json.dumps({"$a": x}) in txt and rng.random() < 0.6:
+                    base.append(json.loads(txt.replace(json.dumps({"$a": x}), json.dumps({"$a": y}))))
+                    break
     inject_at = frng.randrange(nops) if frng.random() < 0.3 else None
     for j in range(nops):
         # re-use: repeat an earlier call verbatim, or draw from the small base set
@@ -993,6 +1041,20 @@ def make_case(seed_i, tier):
             call2["func"] = "raises"
             op = {"call": call2, "fault": {"kind": "user_raise"}}
         ops.append(op)
+    lrng = core.stream(seed_i, "lazy")
+    if lrng.random() < 0.15:
+        # lazy world: the arrays the caller passes (and, in half of these worlds, the grid dataset) are dask-backed,
+        # chunked by an independent random composition of every dimension (face worlds: face and non-spatial
+        # dimensions only); results are computed with dask's synchronous scheduler
+        sizes = worlds.dim_sizes(ws["gspec"])
+        allowed = None if ws["kind"] == "simple" else {"face", "t"}
+        for a in ws["arrays"]:
+            if all(d in sizes for d in a["dims"]):
+                a["chunks"] = {d: list(worlds.compositions(lrng, sizes[d])) for d in a["dims"]
+                               if allowed is None or d in allowed}
+        if lrng.random() < 0.5:
+            ws["gspec"]["ds_chunks"] = {d: list(worlds.compositions(lrng, n)) for d, n in sizes.items()
+                                        if allowed is None or d in allowed}
     spec = {"world": ws, "ops": ops}
     if frng.random() < 0.12:
         # fault kind: warnings escalated to exceptions for the whole history (fresh reference runs included)
